@@ -2,7 +2,7 @@
    A case holds the verb, its options, the input records and the records the real mlr printed.
    Deterministic verbs: model output = observed output.  Random verbs (shuffle, bootstrap, sample): the verified
    boolean checkers of Checkers.v are run on the observed output. *)
-From Miller Require Import Base.Record C11.Model C11.Checkers.
+From Miller Require Import Base.Record C11.Model C11.UniqModel C11.Checkers.
 Open Scope Z_scope.
 
 Definition case := (Z * list Z * list (list bytes) * list record * list record)%type.
@@ -46,5 +46,12 @@ Definition chk (c : case) : bool :=
   | 14 => check_shuffle inp out
   | 15 => check_bootstrap (zarg 0 zs) inp out
   | 16 => check_sample (zarg 0 zs) (sarg 0 ss) inp out
+  (* uniq.go beyond -a: zs = [invert], ss = [field names; [output field name]] *)
+  | 17 => eqo (uniq_g (zb (zarg 0 zs)) (sarg 0 ss) inp) out
+  | 18 => eqo (uniq_c (zb (zarg 0 zs)) (sarg 0 ss) (hd [] (sarg 1 ss)) inp) out
+  | 19 => eqo (uniq_n (zb (zarg 0 zs)) (sarg 0 ss) inp) out
+  | 20 => eqo (uniq_a_c (hd [] (sarg 1 ss)) inp) out
+  | 21 => eqo (uniq_a_n (hd [] (sarg 1 ss)) inp) out
+  | 22 => eqo (count_distinct_u (zb (zarg 0 zs)) (sarg 0 ss) inp) out
   | _ => false
   end.
